@@ -31,7 +31,7 @@ def _val(k, i):
 
 
 def seeds():
-    yield "dag", T.prog([T.fn("na", ["e0", "e1"], ["a0"], defaults={"e1": ["dflt", "e1"]}), T.fn("nb", ["a0"], ["b0", "b1"]), T.fn("nc", ["b0", "e0"], ["c0"])], name="sd"), {"e0": ["prov", "e0"]}
+    yield "dag", T.prog([T.fn("na", ["e0", "e1"], ["a0"], defaults={"e1": ["dflt", "e1"]}, types={"e0": int, "e1": str, "return": float}), T.fn("nb", ["a0"], ["b0", "b1"], types={"a0": float}), T.fn("nc", ["b0", "e0"], ["c0"], types={"b0": bytes, "e0": int, "return": list})], name="sd"), {"e0": ["prov", "e0"]}
     g = T.diamond_ifelse(True)
     g["nodes"][1]["behav"] = {"seq": [True]}
     g["name"] = "sg"
@@ -72,6 +72,7 @@ def snap(obj, h, run_inputs):
         "hash": obj.definition_hash,
         "history": len(obj._rename_history),
     }
+    s["types"] = tuple((p, repr(obj.get_input_type(p))) for p in obj.inputs)  # the type follows the (renamed) input
     if hasattr(obj, "defaults"):
         s["defaults"] = tuple(sorted((k, repr(v)) for k, v in obj.defaults.items()))
     if hasattr(obj, "map_config"):
